@@ -67,24 +67,41 @@ func fnBetween(args []object.Object) object.Object {
 	min := args[1]
 	max := args[2]
 
-	// val < min?
-	lower := fnMin([]object.Object{val, min})
-	if lower == val {
-
-		if val.Inspect() != min.Inspect() {
-			return &object.Boolean{Value: false}
-		}
-	}
-
-	// val > max
-	upper := fnMax([]object.Object{val, max})
-	if upper == val {
-		if val.Inspect() != max.Inspect() {
-			return &object.Boolean{Value: false}
-		}
+	// val < min, or val > max?
+	if numericLess(val, min) || numericLess(max, val) {
+		return &object.Boolean{Value: false}
 	}
 
 	return &object.Boolean{Value: true}
+}
+
+// isNumber reports whether the object is an integer or a float.
+func isNumber(obj object.Object) bool {
+	return obj.Type() == object.INTEGER || obj.Type() == object.FLOAT
+}
+
+// numericLess reports whether the number a is smaller than the number b,
+// comparing two integers as integers and anything else as floats - just
+// as the `<` operator does.
+func numericLess(a object.Object, b object.Object) bool {
+	ai, aInt := a.(*object.Integer)
+	bi, bInt := b.(*object.Integer)
+	if aInt && bInt {
+		return ai.Value < bi.Value
+	}
+
+	var af, bf float64
+	if aInt {
+		af = float64(ai.Value)
+	} else {
+		af = a.(*object.Float).Value
+	}
+	if bInt {
+		bf = float64(bi.Value)
+	} else {
+		bf = b.(*object.Float).Value
+	}
+	return af < bf
 }
 
 // fnFloat is the implementation of the `float` function.
@@ -303,6 +320,14 @@ func fnMax(args []object.Object) object.Object {
 		return &object.Null{}
 	}
 
+	// Numbers are compared numerically.
+	if isNumber(args[0]) && isNumber(args[1]) {
+		if numericLess(args[0], args[1]) {
+			return args[1]
+		}
+		return args[0]
+	}
+
 	// Create an array.  Yeah.
 	elements := make([]object.Object, 2)
 	elements[0] = args[0]
@@ -325,6 +350,14 @@ func fnMin(args []object.Object) object.Object {
 	// We expect two arguments
 	if len(args) != 2 {
 		return &object.Null{}
+	}
+
+	// Numbers are compared numerically.
+	if isNumber(args[0]) && isNumber(args[1]) {
+		if numericLess(args[1], args[0]) {
+			return args[1]
+		}
+		return args[0]
 	}
 
 	// Create an array.  Yeah.
